@@ -71,6 +71,12 @@ where
       move |e| error(serial_error, e),
       move || complete(serial_complete),
     );
+    if !self.subscriber.is_subscribed() {
+      // downstream has already ended: hand out an observer that is ended as well, so
+      // the upstream neither emits into it nor is kept alive by this controller
+      observer.unsubscribe();
+      return observer;
+    }
     let o_unsub = observer.clone();
 
     let mut unsubscribers = self.unscribers.write().unwrap();
